@@ -373,6 +373,9 @@ func genExtracted(b *strings.Builder, root, authp, httpio *pkg) {
 	w("Definition retry_condition : string := %s.", coqStr(retryCondition(root)))
 	w("(* bodies of the closers returned by the three client constructors *)")
 	w("Definition closer_bodies : list (string * string) := [%s].", closerBodies(root))
+	w("(* backoff.next compares with maxDelay in the float domain before converting to time.Duration *)")
+	w("Definition backoff_clamps_before_convert : bool := %s.", coqBool(backoffClampFirst(root)))
+	w("Definition backoff_constants : list string := %s.", strList(backoffConsts(root)))
 	w("")
 	w("(* package auth *)")
 	sh := authp.funcDecl("Handler", "ServeHTTP")
@@ -658,4 +661,41 @@ func closerBodies(p *pkg) string {
 		items = append(items, fmt.Sprintf("(%s, %s)", coqStr(fn), coqStr(body)))
 	}
 	return strings.Join(items, "; ")
+}
+
+func backoffClampFirst(p *pkg) bool {
+	fd := p.funcDecl("backoff", "next")
+	if fd == nil {
+		die("backoff.next not found")
+	}
+	var clampPos, convPos token.Pos
+	for _, st := range fd.Body.List {
+		switch v := st.(type) {
+		case *ast.IfStmt:
+			c := exprString2(v.Cond)
+			if (c == "durf >= float64(b.maxDelay)" || c == "durf > float64(b.maxDelay)") && len(v.Body.List) == 1 {
+				if rs, ok := v.Body.List[0].(*ast.ReturnStmt); ok && len(rs.Results) == 1 && exprString2(rs.Results[0]) == "b.maxDelay" && clampPos == 0 {
+					clampPos = v.Pos()
+				}
+			}
+		case *ast.AssignStmt:
+			if len(v.Rhs) == 1 && strings.HasPrefix(exprString2(v.Rhs[0]), "time.Duration(") && convPos == 0 {
+				convPos = v.Pos()
+			}
+		}
+	}
+	return clampPos != 0 && convPos != 0 && clampPos < convPos
+}
+
+// numeric literals and the formula's shape: base of the power and the jitter term
+func backoffConsts(p *pkg) []string {
+	fd := p.funcDecl("backoff", "next")
+	var out []string
+	ast.Inspect(fd.Body, func(n ast.Node) bool {
+		if as, ok := n.(*ast.AssignStmt); ok && len(as.Lhs) == 1 && exprString(as.Lhs[0]) == "durf" {
+			out = append(out, exprString2(as.Rhs[0]))
+		}
+		return true
+	})
+	return out
 }
